@@ -443,6 +443,15 @@ def rule_error_class(ctx: Ctx, rep: Report) -> None:
     rep.floor(rule, 20)
 
 
+def _conj(test: ast.AST, pol: bool) -> list[tuple[str, bool]]:
+    """A fact as literal conjuncts: `not a` -> (a, False); (a and b) true / (a or b) false split."""
+    if isinstance(test, ast.UnaryOp) and isinstance(test.op, ast.Not):
+        return _conj(test.operand, not pol)
+    if isinstance(test, ast.BoolOp) and isinstance(test.op, ast.And) == pol:
+        return [x for v in test.values for x in _conj(v, pol)]
+    return [(norm(test), pol)]
+
+
 def _stmt(n: ast.AST) -> ast.AST:
     while n is not None and not isinstance(n, ast.stmt):
         n = parent(n)
@@ -457,23 +466,38 @@ def rule_core_rows(ctx: Ctx, rep: Report) -> None:
     g = ctx.cfg(vi)
     refs = ctx.refusals(vi)
 
-    def facts_of(n) -> set[tuple[str, bool]]:
-        return set(g.facts()[n.id]) | {(norm(n.ast), True)}
+    from sa.canon import expand, flag_locals
+    p2sh_flags = flag_locals(vi, "'p2sh'")
+    if len(p2sh_flags) != 1:
+        raise AnalysisError(f"verify_input: the p2sh flag local is not recognised: {sorted(p2sh_flags)}")
+    p2sh_name = next(iter(p2sh_flags))
 
     def find(what: str, pred) -> None:
+        """pred(lits): lits = the refusing condition as (text, polarity) conjuncts, locals
+        expanded to their definitions, the p2sh flag local spelled <p2sh>."""
         hit = []
         for t, pol, n in refs:
-            f = set(g.facts()[n.id])
-            # the whole refusing condition: the leaf and the conjuncts that led to it
-            whole = " and ".join([x if p else f"not {x}" for x, p in sorted(f)] + [norm(t) if pol else f"not {norm(t)}"])
-            if pred(whole, True, f):
+            lits = []
+            for x, p in sorted(set(g.facts()[n.id]) | {(norm(t), pol)}):
+                fa = g.fact_ast.get(x)
+                if x == p2sh_name:
+                    lits.append(("<p2sh>", p))
+                    continue
+                for sub, sp in (_conj(fa, p) if fa is not None else [(x, p)]):
+                    lits.append(("<p2sh>" if sub == p2sh_name else expand(vi, sub), sp))
+            if pred(lits):
                 hit.append(n)
         rep.ob(rule, what, bool(hit), vi.where(hit[0].ast if hit else None), f"refusal `{norm(hit[0].ast)}`" if hit else f"no refusal in verify_input for {what}")
 
-    find("WITNESS_MALLEATED", lambda t, pol, f: "script_sig" in t and "not p2sh" in t and "ScriptFlag.WITNESS in" in t and "serialize" not in t)
-    find("WITNESS_MALLEATED_P2SH", lambda t, pol, f: "script_sig != serialize(" in t and " p2sh" in " " + t and "not p2sh" not in t and "ScriptFlag.WITNESS in" in t)
-    find("WITNESS_UNEXPECTED", lambda t, pol, f: "script_witness" in t and "not segwit_version + 1" in t)
-    find("CLEANSTACK", lambda t, pol, f: "CLEANSTACK" in t and "stack" in t)
+    def lit(lits, pol, *subs, no=()):
+        return any(p == pol and all(s_ in x for s_ in subs) and not any(s_ in x for s_ in no) for x, p in lits)
+
+    segwit = lambda L, pol: lit(L, pol, "is_segwit(")  # noqa: E731 -- "the script is a witness program"
+    flag = lambda L: lit(L, True, "ScriptFlag.WITNESS in")  # noqa: E731
+    find("WITNESS_MALLEATED", lambda L: flag(L) and segwit(L, True) and lit(L, True, "script_sig", no=("serialize", "is_segwit(")) and lit(L, False, "<p2sh>"))
+    find("WITNESS_MALLEATED_P2SH", lambda L: flag(L) and segwit(L, True) and lit(L, True, "<p2sh>") and (lit(L, True, "script_sig", "!=", "serialize(") or lit(L, False, "script_sig", "==", "serialize(")))
+    find("WITNESS_UNEXPECTED", lambda L: segwit(L, False) and lit(L, True, "script_witness"))
+    find("CLEANSTACK", lambda L: lit(L, True, "ScriptFlag.CLEANSTACK in") and lit(L, True, "stack", no=("ScriptFlag",)))
     # BIP16: push-only is consensus for p2sh
     vp = ctx.calls_to(vi, "validate_push_only", last=True)
     okp = any(("p2sh" in " ".join(t for t, p in g.facts_at_ast(c) if p)) or any("'p2sh'" in t for t, p in g.facts_at_ast(c) if p) for c in vp)
